@@ -20,8 +20,9 @@ import (
 // real storage fault: the second write of the block's transaction fails (the exit root of the first bridge, inside
 // AppendOnlyTree.AddLeaf, when the block starts with a bridge).
 type bridgeStore struct {
-	path string
-	s    *bridgesync.BridgeSync
+	reorgs int
+	path   string
+	s      *bridgesync.BridgeSync
 }
 
 func (s *bridgeStore) reopen() error {
@@ -90,6 +91,14 @@ func (s *bridgeStore) ProcessBlockFaulty(ctx context.Context, b sync.Block) erro
 }
 
 func (s *bridgeStore) Reorg(ctx context.Context, first uint64) error {
+	// every other reorg runs while another goroutine of the node has a query in flight on the store's connection pool
+	// (the bridge service, the aggsender): the reorg cannot reuse the pool's first connection
+	if s.reorgs++; s.reorgs%2 == 1 {
+		if rows, err := s.s.VerifDB().Query(`SELECT 1 UNION ALL SELECT 2`); err == nil {
+			rows.Next()
+			defer rows.Close()
+		}
+	}
 	return s.s.VerifReorg(ctx, first)
 }
 
